@@ -210,6 +210,140 @@ Example C14_example_refused :
   In (EvRet 5 (CReset ex_o1) RMachineError) (appended s (step s (Call 5 (CReset ex_o1)))).
 Proof. vm_compute. auto. Qed.
 
+(** ---- tie of the composer part of the model to the source (Life/ArgTie.v) ----
+    Gen/ArgComposer.v is regenerated from argument.py, count.py, types.py, spawned/types.py, main.py and the
+    registrars run_no.py / run_info.py / script.py by translate/arg_composer.py on every run.  The functions of
+    Life/Model.v that stand for RunArgComposer are EQUAL, for every state and every option record, to the
+    transcribed ones ([get_comp]/[put_comp]: the four composer fields of a model state; [ropts]: the
+    ResetOptions that Nextline.reset builds from the model's [opts]); so all theorems above are theorems about
+    the transcribed code. *)
+From NL Require Import Gen.ArgComposer Life.ArgTie.
+
+Theorem C14_tie_init : forall stmt start th md,
+  get_comp (init_state stmt start th md) = RunArgComposer_init (Nextline_init_options stmt start th md).
+Proof. exact tie_init. Qed.
+
+(** compose_run_arg, then what RunNoRegistrar / RunInfoRegistrar publish at on_initialize_run *)
+Theorem C14_tie_initialize_run : forall s, initialize_run s = gen_initialize_run s.
+Proof. exact tie_initialize_run. Qed.
+
+Theorem C14_tie_enter_start : forall s t c, enter_start s t c = gen_enter_start s t c.
+Proof. exact tie_enter_start. Qed.
+
+Theorem C14_tie_start_resume : forall c,
+  exists k, RunArgComposer_start c = Await c (OnChangeScript (a_statement c) (a_filename c)) k /\
+            forall c', k c' = Ret c'.
+Proof. exact tie_start_resume. Qed.
+
+(** the reset hook up to its first suspension (the nested on_change_script, or its end) *)
+Theorem C14_tie_enter_reset : forall s t o, enter_reset s t o = gen_enter_reset s t o.
+Proof. exact tie_enter_reset. Qed.
+
+(** ... and its continuation after the gate, applied to the state as it is then *)
+Theorem C14_tie_resume_reset : forall s0 s o, o_stmt o <> None -> apply_rest s o = gen_resume_reset s0 s o.
+Proof. exact tie_resume_reset. Qed.
+
+Theorem C14_tie_reset_whole : forall s o,
+  model_reset s o = put_comp s (finish (RunArgComposer_reset (get_comp s) (ropts o))).
+Proof. exact tie_reset_whole. Qed.
+
+Theorem C14_tie_registrars : forall ra x f,
+  decode_all (ScriptRegistrar_on_change_script x f) = Some [PStatement x] /\
+  decode_all (RunNoRegistrar_on_initialize_run (HookContext_mk ra)) = Some [PRunNo (rg_run_no ra)] /\
+  decode_all (RunInfoRegistrar_on_initialize_run (HookContext_mk ra) true)
+    = Some [PRunInfo (rg_run_no ra) RInitialized (rg_statement ra) None].
+Proof. exact tie_registrars. Qed.
+
+(** a reset applies exactly the given options (an explicit False / 0 included) and nothing else *)
+Theorem C14_tie_reset_exact : forall c o,
+  let c' := finish (RunArgComposer_reset c o) in
+  a_statement c' = dflt (a_statement c) (ro_statement o) /\
+  a_run_no_count c' = dflt (a_run_no_count c) (ro_run_no_start_from o) /\
+  a_trace_threads c' = dflt (a_trace_threads c) (ro_trace_threads o) /\
+  a_trace_modules c' = dflt (a_trace_modules c) (ro_trace_modules o) /\
+  a_filename c' = a_filename c.
+Proof. exact reset_exact. Qed.
+
+(** on_change_script is awaited iff a statement is given, showing that statement, when only the statement has
+    been stored; the other options are applied after it to the composer as it is then *)
+Theorem C14_tie_reset_hook_position : forall c o,
+  match ro_statement o with
+  | Some x => exists k, RunArgComposer_reset c o = Await (set_statement c x) (OnChangeScript x (a_filename c)) k /\
+                        forall c1, exists c2, k c1 = Ret c2 /\
+                          a_statement c2 = a_statement c1 /\
+                          a_run_no_count c2 = dflt (a_run_no_count c1) (ro_run_no_start_from o) /\
+                          a_trace_threads c2 = dflt (a_trace_threads c1) (ro_trace_threads o) /\
+                          a_trace_modules c2 = dflt (a_trace_modules c1) (ro_trace_modules o) /\
+                          a_filename c2 = a_filename c1
+  | None => exists c2, RunArgComposer_reset c o = Ret c2
+  end.
+Proof. exact reset_hook_position. Qed.
+
+Theorem C14_tie_reset_no_options_is_identity : forall c,
+  finish (RunArgComposer_reset c ResetOptions_defaults) = c /\ hooks_in (RunArgComposer_reset c ResetOptions_defaults) = [].
+Proof. exact reset_no_options_is_identity. Qed.
+
+(** compose_run_arg consumes exactly one number and copies the other attributes *)
+Theorem C14_tie_compose_one : forall c,
+  let '(ra, c') := RunArgComposer_compose_run_arg c in
+  rg_run_no ra = a_run_no_count c /\ rg_statement ra = a_statement c /\ rg_filename ra = Some (a_filename c) /\
+  rg_trace_threads ra = a_trace_threads c /\ rg_trace_modules ra = a_trace_modules c /\
+  c' = set_run_no_count c (a_run_no_count c + 1).
+Proof. exact compose_one. Qed.
+
+(** the numbers handed out by n initialisations in a row are consecutive: from the configured start of a new
+    object, from the restart value after a reset that gives one, going on after a reset that gives none *)
+Theorem C14_tie_numbers_from_init : forall n io,
+  fst (compose_n n (RunArgComposer_init io)) = map (fun i => io_run_no_start_from io + Z.of_nat i) (seq 0 n).
+Proof. exact numbers_from_init. Qed.
+
+Theorem C14_tie_numbers_after_restart : forall n c o start,
+  ro_run_no_start_from o = Some start ->
+  fst (compose_n n (finish (RunArgComposer_reset c o))) = map (fun i => start + Z.of_nat i) (seq 0 n).
+Proof. exact numbers_after_restart. Qed.
+
+Theorem C14_tie_numbers_after_plain_reset : forall n c o,
+  ro_run_no_start_from o = None ->
+  fst (compose_n n (finish (RunArgComposer_reset c o))) = map (fun i => a_run_no_count c + Z.of_nat i) (seq 0 n).
+Proof. exact numbers_after_plain_reset. Qed.
+
+(** defaults and argument wiring of Nextline(...) / Nextline.reset(...) *)
+Theorem C14_tie_defaults :
+  (forall stmt, Nextline_init_options stmt Nextline_init_default_run_no_start_from
+                  Nextline_init_default_trace_threads Nextline_init_default_trace_modules
+                = InitOptions_defaults stmt) /\
+  (forall stmt, cfields_of (RunArgComposer_init (InitOptions_defaults stmt)) = (stmt, 1, false, false)) /\
+  Nextline_reset_options Nextline_reset_default_statement Nextline_reset_default_run_no_start_from
+    Nextline_reset_default_trace_threads Nextline_reset_default_trace_modules = ResetOptions_defaults /\
+  ResetOptions_defaults = ResetOptions_kw None None None None /\
+  RunNoCounter_default_start = 1.
+Proof. exact tie_defaults. Qed.
+
+Theorem C14_tie_option_wiring :
+  (forall a b c d, Nextline_init_options a b c d = InitOptions_kw a b c d) /\
+  (forall a b c d, Nextline_reset_options a b c d = ResetOptions_kw a b c d).
+Proof. exact tie_option_wiring. Qed.
+
+(** [C14_reset_atomic] read on the transcribed code: when reset(o) returns normally, [run_arg] is the
+    transcribed compose_run_arg of the transcribed reset of the composer as it was when this reset began *)
+Theorem C14_tie_reset_atomic : forall stmt start th md ls l t o,
+  let s := run_labels (init_state stmt start th md) ls in
+  let s' := step s l in
+  In (EvRet t (CReset o) ROk) (appended s s') ->
+  st_fsm s' = Initialized /\
+  run_arg s' = Some (runarg_of (fst (RunArgComposer_compose_run_arg
+                 (finish (RunArgComposer_reset (composer_of (fst (snapshot stmt start th md ls))) (ropts o)))))).
+Proof. exact reset_atomic_gen. Qed.
+
+(** non-vacuity on the transcribed functions: reset(trace_threads=False) switches thread tracing off;
+    reset(statement=2, run_no_start_from=3) given at counter value 3 restarts at 3 *)
+Example C14_tie_example :
+  a_trace_threads (finish (RunArgComposer_reset (Composer_mk 3 1 SCRIPT_FILE_NAME true true)
+                                                 (ResetOptions_kw None None (Some false) None))) = false /\
+  fst (compose_n 3 (finish (RunArgComposer_reset (Composer_mk 3 1 SCRIPT_FILE_NAME true true)
+                                                  (ResetOptions_kw (Some 2) (Some 3) None None)))) = [3; 4; 5].
+Proof. exact reset_false_is_applied. Qed.
+
 Print Assumptions C14_run_no_first.
 Print Assumptions C14_run_no_consecutive.
 Print Assumptions C14_init_record_block.
@@ -226,3 +360,22 @@ Print Assumptions C14_no_run_during_reset.
 Print Assumptions C14_reset_atomic.
 Print Assumptions C14_reset_options_applied.
 Print Assumptions C14_reset_refused_changes_nothing.
+Print Assumptions C14_tie_init.
+Print Assumptions C14_tie_initialize_run.
+Print Assumptions C14_tie_enter_start.
+Print Assumptions C14_tie_start_resume.
+Print Assumptions C14_tie_enter_reset.
+Print Assumptions C14_tie_resume_reset.
+Print Assumptions C14_tie_reset_whole.
+Print Assumptions C14_tie_registrars.
+Print Assumptions C14_tie_reset_exact.
+Print Assumptions C14_tie_reset_hook_position.
+Print Assumptions C14_tie_reset_no_options_is_identity.
+Print Assumptions C14_tie_compose_one.
+Print Assumptions C14_tie_numbers_from_init.
+Print Assumptions C14_tie_numbers_after_restart.
+Print Assumptions C14_tie_numbers_after_plain_reset.
+Print Assumptions C14_tie_defaults.
+Print Assumptions C14_tie_option_wiring.
+Print Assumptions C14_tie_reset_atomic.
+Print Assumptions C14_tie_example.
